@@ -20,6 +20,9 @@ EXPLANATION = (
     "part of the trusted base. Numerical agreement of operations and estimators across backends is not decided."
 )
 TECHNIQUE = "static analysis of rustc MIR: sibling cross-check of the three backend impls with a library-semantics table (reject / broadcast / layout), guard rules, sign-sensitivity rule"
+# the thorough tier re-evaluates a property in the default-feature configuration and compares verdicts; two of the three
+# backends do not exist there, so the comparison is meaningless for this property (sibling rules would "disagree")
+CONFIGS = []
 
 BACKENDS = {"ndarray": "ndarray::ArrayBase", "nalgebra": "nalgebra::Matrix", "dense": "linalg::naive::dense_matrix::DenseMatrix<T>", "vec": "std::vec::Vec<T>"}
 
